@@ -16,11 +16,15 @@ DELIMS = {"tab": ("\t", "DTab"), "space": (" ", "DSpace"), "comma": (",", "DComm
 CH2D = {ch: coq for ch, coq in DELIMS.values()}
 
 TRUSTED = [
-    "translator/c20.py (Alignment members; the integer expressions of _set_relative_position from an if/elif chain or "
-    "a match statement; decorator + parameter list of load_cropped_and_aligned_image; the separator tuple of load_image; "
-    "everything that could keep state between two calls in loader.py / image.py / the two loading models: caching "
-    "decorators, module-level containers mutated in functions, mutable defaults, function attributes; the call sites of "
-    "the two loading models; fails closed on any other shape)",
+    "translator/c20.py (Alignment members; the pair of integer expressions _set_relative_position returns for each "
+    "member, found by partial evaluation of its body per member — if/elif, guard clauses, inverted / `in` tests, match, "
+    "dispatch dicts, conditional expressions, local aliases, inlined private helpers, renamed parameters followed to the "
+    "call in fit_into_array; decorator + parameter list of load_cropped_and_aligned_image; the separators of the one "
+    "loop around np.loadtxt(delimiter=<loop variable>) in load_image or a private helper it calls, the list resolved "
+    "through local / module-level names bound once and helper parameters; everything that could keep state between two "
+    "calls in loader.py / image.py / the two loading models: caching decorators, module-level containers mutated in "
+    "functions, mutable defaults, function attributes; the call sites of the two loading models read by an abstract "
+    "evaluation of the default path with private helpers inlined; fails closed on any other shape)",
     "correspondence harness: harness/props/c20.py generators and text tokeniser, harness/drivers/c20.py (independent "
     "writers numpy.save / numpy.savetxt / astropy writeto / PIL / openpyxl; os.utime to give a rewritten file a chosen, "
     "different modification time)",
